@@ -141,6 +141,7 @@ class Case:
         steps = 0
         nontrivial = False
         skipped_q = 0
+        cut_short = False
         for rep in range(self.repeat):
             for q in self.queries:
                 obs = [('v', k) for k in term_vars(q)]
@@ -161,7 +162,8 @@ class Case:
                     exp = exp[:cap]
                     if cap == 0:
                         outcome.append(('budget', 0))
-                        continue
+                        cut_short = True
+                        break
                 try:
                     with watchdog():
                         if self.budget:
@@ -191,6 +193,13 @@ class Case:
                 if exp:
                     nontrivial = True
                 outcome.append((rstatus, tuple(exp)))
+                if rstatus != 'complete':
+                    # the reference search was cut by its budget and the implementation was asked for a prefix only:
+                    # the two have not executed the same side effects, so nothing AFTER this query is compared
+                    cut_short = True
+                    break
+            if cut_short:
+                break
         if skipped_q == len(self.queries) * self.repeat:
             return {'status': 'skip', 'reason': 'unspecified (cyclic term / unbound goal)'}
         return {'status': 'ok', 'outcome': tuple(outcome), 'steps': steps, 'nontrivial': nontrivial,
